@@ -1490,9 +1490,12 @@ impl<'a, 'b> InternalDelphiLogicalLineParser<'a, 'b> {
         }
 
         let paren_level = self.paren_level;
-        while !(matches!(self.get_token_type::<-1>(), Some(TT::Op(OK::RParen)))
+        let mut consumed_opening_paren = false;
+        while !(consumed_opening_paren
+            && matches!(self.get_token_type::<-1>(), Some(TT::Op(OK::RParen)))
             && paren_level >= self.paren_level)
         {
+            consumed_opening_paren = true;
             match self.get_current_token_type() {
                 Some(TT::Op(OK::Semicolon | OK::LParen)) => fix_next_eq(self),
                 None => break,
